@@ -689,7 +689,7 @@ Lemma op_safe s o :
               = spec_blobs_step H (fun x => exists_file (sfs s) (FBlob x)) o d') /\
   forall k, Recoverable H (sfs s) (crash_fs H shuffle false false s o k) (sfs (runop s o)).
 Proof.
-  intro I. unfold run_op, crash_fs, op_steps. destruct o as [d cont man|d r|r|d|].
+  intro I. unfold run_op, crash_fs, op_steps. destruct o as [d cont man|d r|r|d| |live].
   - (* Push *)
     cbn [op_mem spec_blobs_step]. destruct (exists_file (sfs s) (FBlob d)) eqn:Ex.
     + destruct (noop_safe s _ _ I eq_refl eq_refl) as (N1 & NA & N2 & N3).
@@ -735,6 +735,15 @@ Proof.
     destruct (idx_only_safe s (stags s) (sdigs s) I (inv_tagdig s I) (inv_digs s I)) as (I1 & A1 & F1 & R1).
     split; [exact I1|split; [intros _; exact A1|split; [|exact R1]]]. intro d'. cbn [sfs]. unfold exists_file.
     rewrite F1; [reflexivity|discriminate|reflexivity].
+  - (* Forget *)
+    cbn [op_mem spec_blobs_step].
+    set (digs' := filter (fun x => memN x live || existsb (fun e => snd e =? x) (stags s)) (sdigs s)).
+    destruct (idx_only_safe s (stags s) digs' I) as (I1 & A1 & F1 & R1).
+    + intros r n Hin. apply filter_In. split; [exact (inv_tagdig s I r n Hin)|].
+      apply orb_true_iff. right. apply existsb_exists. exists (r, n). split; [exact Hin|apply N.eqb_refl].
+    + intros n Hin. apply filter_In in Hin as [Hin _]. now apply (inv_digs s I).
+    + split; [exact I1|split; [intros _; exact A1|split; [|exact R1]]]. intro d'. cbn [sfs]. unfold exists_file.
+      rewrite F1; [reflexivity|discriminate|reflexivity].
 Qed.
 
 Lemma inv_init : Inv init.
@@ -818,7 +827,7 @@ Proof.
   intros I [Rb Rt]. split.
   - intro d'. destruct (op_safe s o I) as (_ & _ & E & _). rewrite E.
     apply spec_blobs_ext. exact Rb.
-  - unfold run_op. destruct o as [d cont man|d r|r|d|]; cbn [op_mem spec_tags_step].
+  - unfold run_op. destruct o as [d cont man|d r|r|d| |live]; cbn [op_mem spec_tags_step].
     + (* Push: the tag map does not change *)
       destruct (exists_file (sfs s) (FBlob d)); [exact Rt|].
       destruct (negb (H cont =? d)); [exact Rt|]. destruct man; exact Rt.
@@ -848,6 +857,7 @@ Proof.
       * split.
         -- intros [Eq _]. exact Eq.
         -- intro Eq. injection Eq as <-. split; [reflexivity|now rewrite E].
+    + exact Rt.
     + exact Rt.
 Qed.
 
@@ -924,13 +934,14 @@ Ltac tc_solve :=
 
 Lemma op_steps_tc s o : all_tc (sctr s) (steps s o).
 Proof.
-  unfold op_steps. destruct o as [d cont man|d r|r|d|]; cbn [op_mem].
+  unfold op_steps. destruct o as [d cont man|d r|r|d| |live]; cbn [op_mem].
   - destruct (exists_file (sfs s) (FBlob d)); [apply all_tc_nil|].
     destruct (H cont =? d); cbn [negb]; destruct man; tc_solve.
   - destruct (exists_file (sfs s) (FBlob d)); tc_solve.
   - destruct (tag_get r (stags s)); tc_solve.
   - destruct (existsb (fun e => snd e =? d) (stags s) || memN d (sdigs s));
       destruct (exists_file (sfs s) (FBlob d)); tc_solve.
+  - tc_solve.
   - tc_solve.
 Qed.
 
@@ -1045,7 +1056,7 @@ Ltac ipf_solve :=
 
 Theorem no_in_place_write s o : all_ipf (steps s o).
 Proof.
-  unfold op_steps. destruct o as [d cont man|d r|r|d|]; cbn [op_mem].
+  unfold op_steps. destruct o as [d cont man|d r|r|d| |live]; cbn [op_mem].
   - destruct (exists_file (sfs s) (FBlob d)); [apply all_ipf_nil|].
     destruct (H cont =? d); cbn [negb]; destruct man; ipf_solve.
   - destruct (exists_file (sfs s) (FBlob d)); ipf_solve.
@@ -1053,6 +1064,65 @@ Proof.
   - destruct (existsb (fun e => snd e =? d) (stags s) || memN d (sdigs s));
       destruct (exists_file (sfs s) (FBlob d)); ipf_solve.
   - ipf_solve.
+  - ipf_solve.
+Qed.
+
+(* ---------- one API call = several primitive operations in a row (Delete+AutoGC, GC) ---------- *)
+(* a cut of the concatenated micro-steps is a cut of ONE of the primitives, taken in the
+   quiescent state the earlier primitives of the same call left behind *)
+Lemma sfs_run_op s o : sfs (runop s o) = apply (steps s o) (sfs s).
+Proof. unfold run_op. destruct (op_mem H s o). reflexivity. Qed.
+
+Lemma seq_cut os : forall s k,
+  (exists pre o post k',
+     os = pre ++ o :: post /\
+     crash_seq H shuffle false false s os k
+       = crash_fs H shuffle false false (run H shuffle false false pre s) o k') \/
+  crash_seq H shuffle false false s os k = sfs (run H shuffle false false os s).
+Proof.
+  induction os as [|o os IH]; intros s k.
+  - right. unfold crash_seq. cbn. now rewrite firstn_nil.
+  - unfold crash_seq. cbn [steps_seq].
+    destruct (firstn_app_cases k (steps s o) (steps_seq H shuffle false false (runop s o) os)) as [[E _]|(k' & E)].
+    + left. exists [], o, os, k. split; [reflexivity|]. rewrite E. reflexivity.
+    + rewrite E, apply_app.
+      rewrite <- sfs_run_op.
+      destruct (IH (runop s o) k') as [(pre & o' & post & k'' & Eq & Ec)|Ef].
+      * left. exists (o :: pre), o', post, k''. split; [now rewrite Eq|].
+        unfold crash_seq in Ec. rewrite Ec. reflexivity.
+      * right. unfold crash_seq in Ef. rewrite Ef. reflexivity.
+Qed.
+
+Lemma inv_runc_app (h : list hop) pre :
+  Inv (run H shuffle false false pre (runc H shuffle false false h init)).
+Proof. apply inv_run. apply inv_runc. apply inv_init. Qed.
+
+(* every cut of a composite call, after any history with earlier crashes: the directory is
+   a crash state of one primitive [o] of the call, between the quiescent states before and
+   after [o]; both are reached by completed primitives only *)
+Theorem crash_safe_composite (h : list hop) (os : list op) k :
+  let s := runc H shuffle false false h init in
+  let fsk := crash_seq H shuffle false false s os k in
+  (exists pre o post,
+     os = pre ++ o :: post /\
+     let sj := run H shuffle false false pre s in
+     Recoverable H (sfs sj) fsk (sfs (run_op H shuffle false false sj o))) \/
+  (fsk = sfs (run H shuffle false false os s) /\ Good fsk).
+Proof.
+  intros s fsk. destruct (seq_cut os s k) as [(pre & o & post & k' & Eq & Ec)|Ef].
+  - left. exists pre, o, post. split; [exact Eq|]. cbn zeta. unfold fsk. rewrite Ec.
+    apply op_safe. apply inv_runc_app.
+  - right. split; [exact Ef|]. unfold fsk. rewrite Ef. apply inv_good.
+    exact (inv_runc_app h os).
+Qed.
+
+(* whatever the cut of a composite call: the static part of the property *)
+Corollary crash_composite_good (h : list hop) (os : list op) k :
+  Good (crash_seq H shuffle false false (runc H shuffle false false h init) os k).
+Proof.
+  destruct (crash_safe_composite h os k) as [(pre & o & post & _ & (L & B & Ix & _))|[_ G]].
+  - exact (conj L (conj B Ix)).
+  - exact G.
 Qed.
 
 End Crash.
@@ -1147,4 +1217,18 @@ Proof.
   rewrite src_inplace_false, src_unlink_first_false.
   intros H shuffle s o m Hin. exact (no_in_place_write H shuffle s o m Hin).
 Qed.
+
+Theorem crash_safe_composite_src :
+  forall (H : list N -> N) (shuffle : nat -> list entry -> list entry),
+    (forall c l e, In e (shuffle c l) <-> In e l) ->
+    forall (h : list hop) (os : list op) (k : nat),
+      let s := runc H shuffle src_inplace src_unlink_first h init in
+      let fsk := crash_seq H shuffle src_inplace src_unlink_first s os k in
+      (exists pre o post,
+         os = pre ++ o :: post /\
+         let sj := run H shuffle src_inplace src_unlink_first pre s in
+         Recoverable H (sfs sj) fsk (sfs (run_op H shuffle src_inplace src_unlink_first sj o))) \/
+      (fsk = sfs (run H shuffle src_inplace src_unlink_first os s) /\
+       layout_ok fsk /\ blob_ok H fsk /\ index_ok fsk).
+Proof. rewrite src_inplace_false, src_unlink_first_false. exact crash_safe_composite. Qed.
 
